@@ -32,7 +32,7 @@ EOLS = ["\n", "\r\n"]
 
 def build_prefix(w, plugin, prefix, tag):
     Events = pu.events(w)
-    plugin.on_event(Events.PRINT_STARTED, None)
+    pu.fire(plugin, "PRINT_STARTED")
     pipe = pl.Pipe(w, plugin=plugin, track_p=False)
     pipe.add_region(pl.fresh_region(w, "rect", "r0"))
     pipe.prologue()
